@@ -135,8 +135,8 @@ def tps (c : Case) : Verdict :=
             (match v with | some v => r.value = v | none => r.value.length = len)
         if ¬ okEach then .diff tag "typed-parameter-id/value" else
         -- (2) Marshal = model on the reported list; (3) monitor: the bytes parse back to the list
-        if marshalTPs raws ≠ .ok bytes then .diff tag s!"marshal={resBytes (marshalTPs raws)}"
-        else if parseTPs bytes ≠ some raws then .propFail tag "marshal-parses-back-to-list"
+        if parseTPs bytes ≠ some raws then .propFail tag "marshal-parses-back-to-list"
+        else if marshalTPs raws ≠ .ok bytes then .diff tag s!"marshal={resBytes (marshalTPs raws)}"
         else
           -- (4) the extension wraps exactly these bytes
           let ext := c.output.getD "ext" "?"
